@@ -208,9 +208,16 @@ impl Mp4Track {
     }
 
     pub fn duration(&self) -> Duration {
-        Duration::from_micros(
-            self.trak.mdia.mdhd.duration * 1_000_000 / self.trak.mdia.mdhd.timescale as u64,
-        )
+        if self.trak.mdia.mdhd.timescale == 0 {
+            return Duration::from_micros(0);
+        }
+        let micros =
+            self.trak.mdia.mdhd.duration as u128 * 1_000_000 / self.trak.mdia.mdhd.timescale as u128;
+        Duration::from_micros(if micros > u64::MAX as u128 {
+            u64::MAX
+        } else {
+            micros as u64
+        })
     }
 
     pub fn bitrate(&self) -> u32 {
